@@ -118,8 +118,8 @@ def cases(tier, seed):
                     "path": rnd.choice(PATHS), "regime": "faraway", "offset": rnd.choice([1e3, 3e4, 1e5]), "seed": rnd.randrange(10**6),
                 }
     for rep in range(2 if tier == "quick" else 20):
-        for spec in ({"k": "rq"}, {"k": "rq", "ard": True}, {"k": "scale", "base": {"k": "rq"}}, {"k": "poly", "power": 3}, {"k": "periodic"}):
-            pb, xb = rnd.choice(BATCH[:4])
+        for spec in ({"k": "rq"}, {"k": "rq", "ard": True}, {"k": "scale", "base": {"k": "rq"}}, {"k": "poly", "power": 3}, {"k": "periodic"}, {"k": "gskl"}):
+            pb, xb = rnd.choice(BATCH[:4]) if spec["k"] != "gskl" else ([], rnd.choice([[], [2]]))
             yield {"kernel": spec, "d": rnd.choice([1, 2, 3]), "n1": 5, "n2": 4, "rel": rnd.choice(["diff", "same"]), "pbatch": pb, "xbatch": xb, "path": rnd.choice(PATHS), "regime": "random",
                    "extreme": True, "seed": rnd.randrange(10**6)}
     # one-hot sequences longer than 256 symbols stored in narrow dtypes (uint8 / bool / int8): distances beyond the dtype's range
@@ -326,6 +326,8 @@ def _run_case(case, ctx):
                     mod.offset = torch.full_like(mod.offset, 1e-6)
                 if type(mod).__name__ == "PeriodicKernel":
                     mod.period_length = torch.full_like(mod.period_length, 1e3)
+                if type(mod).__name__ == "GaussianSymmetrizedKLKernel":
+                    mod.lengthscale = torch.full_like(mod.lengthscale, 40.0)
     n1, n2, xb = case["n1"], case["n2"], case["xbatch"]
     if spec["k"] == "hamming":
         c1 = torch.randint(0, 4, (*xb, n1, d), generator=g)
@@ -343,10 +345,24 @@ def _run_case(case, ctx):
             return v / v.norm(dim=-1, keepdim=True) * (0.05 + 0.9 * util.rand(g, *xb, n, 1))
 
         x1, x2 = ball(n1), ball(n2)
+        if case["seed"] % 2:
+            # the centre of the ball itself (a natural candidate in BOCK): one row of each side exactly the origin
+            x1[..., 0, :] = 0.0
+            x2[..., -1, :] = 0.0
+            if n1 > 2:
+                x1[..., 1, 1:] = 0.0  # an axis-aligned point (some coordinates exactly 0)
     elif spec["k"] == "index":
         # inputs are task indices
         x1 = torch.randint(0, spec["tasks"], (*xb, n1, 1), generator=g)
         x2 = torch.randint(0, spec["tasks"], (*xb, n2, 1), generator=g)
+    elif spec["k"] == "gskl" and case.get("extreme"):
+        # near-deterministic inputs (variances 1e-8 .. 1e-4, around the documented 1e-8 variance jitter) mixed in one pair,
+        # means within a few standard deviations of each other so that the pairs stay correlated
+        def pts(n):
+            lv = -9.0 - 9.0 * util.rand(g, *xb, n, d)
+            return torch.cat([0.3 + 2.0 * (0.5 * lv).exp() * util.randn(g, *xb, n, d), lv], -1)
+
+        x1, x2 = pts(n1), pts(n2)
     elif spec["k"] == "gskl":
         x1 = util.randn(g, *xb, n1, 2 * d) * 0.7
         x2 = util.randn(g, *xb, n2, 2 * d) * 0.7
